@@ -31,7 +31,7 @@ def rawdata_contracts(world, sym_of):
 
 class IncSym:
     """Symbolic ThermochemIncomplete pre-state. shape: (has_H, has_S, has_Cp, has_range)."""
-    def __init__(self, I, has_H, has_S, has_Cp, has_range, tag=''):
+    def __init__(self, I, has_H, has_S, has_Cp, has_range, tag='', coupled_range=True):
         ctx = I.ctx
         R = lambda n: ctx.fresh(tag + n, 'real')
         self.has_H, self.has_S, self.has_Cp, self.has_range = has_H, has_S, has_Cp, has_range
@@ -51,19 +51,27 @@ class IncSym:
             ctx.assume(self.raw.T_ref == self.T_ref)
             ctx.assume(self.raw.H_ref == (self.H if has_H else 0))
             ctx.assume(self.raw.S_ref == (self.S if has_S else 0))
-            if has_range:
+            self.coupled_range = coupled_range
+            if has_range and coupled_range:
                 ctx.assume(z3.And(self.raw.lo == self.lo, self.raw.hi == self.hi))
+            elif has_range:
+                pass        # the declared range was changed after the delegate was built (set_range): the two ranges are unrelated
             else:
                 ctx.assume(z3.And(self.raw.lo == self.raw.min_T, self.raw.hi == self.raw.max_T))
         else:
             fields['ND_Cp_data'] = {}
         if has_range:
-            # wf: declared range contains the reference temperature, lower bound positive
-            ctx.assume(z3.And(self.lo > 0, self.lo <= self.T_ref, self.T_ref <= self.hi))
+            # wf: lower bound positive (absolute temperatures); with a table the constructor of the delegate has checked that the range
+            # contains T_ref -- WITHOUT a table nothing has, so nothing is assumed
+            ctx.assume(z3.And(self.lo > 0, self.lo <= self.hi))
+            if has_Cp and coupled_range:
+                ctx.assume(z3.And(self.lo <= self.T_ref, self.T_ref <= self.hi))
         self.obj = Obj(cls, fields, origin='param')
 
     def in_range(self, T):
         if self.has_Cp:
+            if self.has_range and not getattr(self, 'coupled_range', True):
+                return z3.And(self.raw.in_range(T), self.lo <= T, T <= self.hi)
             return self.raw.in_range(T)
         if self.has_range:
             return z3.And(self.lo <= T, T <= self.hi)
@@ -83,7 +91,10 @@ def inc_unit(method, X):
     def run(I):
         ctx = I.ctx
         shape = SHAPES[ctx.choose([True] * len(SHAPES), 'shape')]
-        s = IncSym(I, *shape)
+        coupled = True
+        if shape[2] and shape[3]:
+            coupled = ctx.choose([True, True], 'declared range still the one the table delegate was built with / changed since (set_range)') == 0
+        s = IncSym(I, *shape, coupled_range=coupled)
         rawdata_contracts(I.world, lambda o: s.raw)
         T = I.fresh('T', 'real')
         kw = {}
@@ -113,9 +124,10 @@ def inc_unit(method, X):
             else:
                 ref = s.H if X == 'H' else s.S
                 ps.append(('without Cp data the reference value is returned', z3_of(r) == ref))
-                ps.append(('warning issued iff T != T_ref (IncompleteDataWarning)',
-                           (T != s.T_ref) if warned and warned[0][1] == 'IncompleteDataWarning' and len(warned) == 1
-                           else (T == s.T_ref) if not warned else z3.BoolVal(False)))
+                needs = z3.Or(T != s.T_ref, z3.Not(s.in_range(T)))
+                ps.append(('warning issued iff T != T_ref or T lies outside the declared range (IncompleteDataWarning)',
+                           needs if warned and warned[0][1] == 'IncompleteDataWarning' and len(warned) == 1
+                           else z3.Not(needs) if not warned else z3.BoolVal(False)))
                 ps.append(('outside the declared range the value is never returned silently (C06)',
                            z3.Implies(z3.Not(s.in_range(T)), z3.BoolVal(bool(warned)))))
             return ps
